@@ -4,23 +4,61 @@ package trace
 import (
 	"bufio"
 	"encoding/json"
+	"fmt"
 	"os"
+	"strconv"
 	"sync"
+	"time"
 )
 
 type Writer struct {
-	mu sync.Mutex
-	f  *os.File
-	w  *bufio.Writer
-	N  int
+	mu     sync.Mutex
+	f      *os.File
+	w      *bufio.Writer
+	N      int
+	last   time.Time
+	lastB  []byte
+	closed bool
 }
 
+// Create opens a trace file. A watchdog ends the process with exit status 4 when no record has been written for
+// VERIF_HANG_SECS seconds (default 150): a driver that sits in a call of the real code that never returns cannot be
+// stopped from inside, and must not keep a check waiting for its whole time limit. The last record written is
+// reported on stderr ("HANG: ..."); the check re-runs the driver and only reports a hang that happens again.
 func Create(path string) (*Writer, error) {
 	f, err := os.Create(path)
 	if err != nil {
 		return nil, err
 	}
-	return &Writer{f: f, w: bufio.NewWriterSize(f, 1<<20)}, nil
+	t := &Writer{f: f, w: bufio.NewWriterSize(f, 1<<20), last: time.Now()}
+	limit := 150
+	if v, err := strconv.Atoi(os.Getenv("VERIF_HANG_SECS")); err == nil && v > 0 {
+		limit = v
+	}
+	go func() {
+		for {
+			time.Sleep(time.Second)
+			t.mu.Lock()
+			idle := time.Since(t.last)
+			closed := t.closed
+			lastB := t.lastB
+			n := t.N
+			if !closed && idle > time.Duration(limit)*time.Second {
+				t.w.Flush()
+				t.mu.Unlock()
+				if len(lastB) > 600 {
+					lastB = lastB[:600]
+				}
+				fmt.Fprintf(os.Stderr, "HANG: no record for %d s after record %d: %s\n", limit, n, lastB)
+				os.Exit(4)
+			}
+			t.mu.Unlock()
+			if closed {
+				return
+			}
+		}
+	}()
+	return t, nil
 }
 
 // Emit writes one record.
@@ -33,12 +71,15 @@ func (t *Writer) Emit(rec map[string]interface{}) {
 	t.w.Write(b)
 	t.w.WriteByte('\n')
 	t.N++
+	t.last = time.Now()
+	t.lastB = b
 	t.mu.Unlock()
 }
 
 func (t *Writer) Close() error {
 	t.mu.Lock()
 	defer t.mu.Unlock()
+	t.closed = true
 	if err := t.w.Flush(); err != nil {
 		return err
 	}
